@@ -80,7 +80,6 @@ func (p *pubSub) handlePubMsg(out chan interface{}) {
 
 	defer p.ps.Unsub(out)
 	buf := make([]byte, 0)
-	var err error
 	for {
 		select {
 		case data, ok := <-out: //发送广播交易
@@ -89,12 +88,8 @@ func (p *pubSub) handlePubMsg(out chan interface{}) {
 			}
 			psMsg := data.(publishMsg)
 			raw := p.encodeMsg(psMsg.msg, &buf)
-			if err != nil {
-				log.Error("handlePubMsg", "topic", psMsg.topic, "err", err)
-				break
-			}
-
-			err = p.Pubsub.Publish(psMsg.topic, raw)
+			// 发布失败只影响当前这条消息, 不能影响后续消息的发布
+			err := p.Pubsub.Publish(psMsg.topic, raw)
 			if err != nil {
 				log.Error("handlePubMsg", "topic", psMsg.topic, "publish err", err)
 			}
